@@ -1,0 +1,34 @@
+//go:build verif
+
+package proxy
+
+// Contracts for the proxy layer (C07, C13), checked by /verif/bin/govc; comment-only.
+
+//@ pure func no_method_named(typ reflect.Type, name string, n int) bool = forall j int :: 0 <= j && j < n ==> rt_methodname(typ, j) != name
+
+// The slot of a method in the fabricated itab is its index in the interface type's method set
+// (reflect's method order of an interface type == itab slot order: both sorted by name — trusted).
+//@ func methodIndexOf
+//@   props C07 C13
+//@   requires type: typ != nil
+//@   assume reflect_model_fact: 0 <= rt_nummethod(typ) && rt_nummethod(typ) < 0x10000
+//@   assigns nothing
+//@   invariant loop 1 scanned: 0 <= i && i <= rt_nummethod(typ) && no_method_named(typ, method, i)
+//@   decreases loop 1 rt_nummethod(typ) - i
+//@   ensures slot_of_named_method: (exists k int :: 0 <= k && k < rt_nummethod(typ) && rt_methodname(typ, k) == method) ==> 0 <= result && result < rt_nummethod(typ) && rt_methodname(typ, result) == method && no_method_named(typ, method, result)
+//@   ensures unknown_method_falls_back_to_slot_zero: no_method_named(typ, method, rt_nummethod(typ)) ==> result == 0
+
+// the variable's two words are overwritten with the fabricated interface value
+//@ func applyIfaceTo
+//@   props C07
+//@   requires pointers: ifaceVar != nil && gen != nil
+//@   assigns (*hack.Iface)(gen).Tab, (*hack.Iface)(gen).Data
+//@   ensures variable_holds_fake: (*hack.Iface)(gen).Tab == ifaceVar.Tab && (*hack.Iface)(gen).Data == ifaceVar.Data
+
+// proxy.Interface: every check precedes the first write; the first mock of a variable builds a fresh
+// method table (all other slots panic), later mocks of the same variable update one slot and leave
+// the others as they are; the variable then holds the fabricated (non-nil) interface value.
+//@ pure func iface_checks_pass(ifaceVar interface{}, method string, imp interface{}) bool = rt_kind(rt_of(typeof(ifaceVar))) == reflect.Ptr && rt_kind(rt_elem(rt_of(typeof(ifaceVar)))) == reflect.Interface
+//@   | && rt_numin(rt_of(typeof(imp))) > rt_numin(rv_type(method_of(rt_elem(rt_of(typeof(ifaceVar))), methodIndexOf_spec(rt_elem(rt_of(typeof(ifaceVar))), method))))
+//@ uninterp func method_of(t reflect.Type, i int) reflect.Value
+//@ uninterp func methodIndexOf_spec(t reflect.Type, name string) int
